@@ -996,4 +996,46 @@ Section Run.
     destruct (run_connect_proof e a (Some (pub root)) b root rand vs) as [_ CP]. fold n in CP.
     destruct (CP St) as (d & k0 & sB & m & Hin & Hc & _). pose proof (NC _ Hin) as X. cbn [snd] in X. congruence.
   Qed.
+
+  (* the joint history IS a Net.v history of the two Conn.v endpoints: each joint step is Net.nstep
+     on the projected state, with the oracle answers computed symbolically *)
+  Theorem jstep_is_nstep_proof : forall e (n : hnet) v,
+    let n1 := nstep e (net_of SIG n) (nev_of SIG pub sign verify dh kdf parse ser_shello ser_chal n v) in
+    let n' := jstep e n v in
+    nA n1 = h_conn (jA n') /\ nB n1 = h_conn (jB n') /\ wAB n1 = jAB n' /\ wBA n1 = jBA n'.
+  Proof.
+    intros e n v. destruct v as [x|x]; cbn [HsNet.jstep HsNet.nev_of nstep HsNet.net_of nA nB wAB wBA].
+    - destruct (hstep e (jA n) x) as [a' o] eqn:H. apply hstep_is_step_proof in H. rewrite H. cbn. auto.
+    - destruct (hstep e (jB n) x) as [b' o] eqn:H. apply hstep_is_step_proof in H. rewrite H. cbn. auto.
+  Qed.
+
+  (* (2) the honest complete handshake inside ANY history: the client holds the hello B signed last, B
+     signed it for the client's public key, B is CONNECTED.  Then both ends hold the same key and token,
+     and B's connect report was caused by a challenge response with that token, processed while B held
+     that key, in a datagram authentic under the key B held when it arrived *)
+  Theorem run_honest_complete_proof :
+    (forall sk s m, verify (pub sk) s m = true <-> s = sign sk m) ->
+    (forall x y, dh x (pub y) = dh y (pub x)) ->
+    forall e a b root rand akeys other vs, ~ In root akeys ->
+    dy_run e root akeys other (hnet0 a (Some (pub root)) b root rand) vs ->
+    let n := jrun e (hnet0 a (Some (pub root)) b root rand) vs in
+    forall rp p sg, h_adopted (jA n) = Some (rp, p, sg) ->
+    last (map Some (signed_log (gB n))) None = Some (pub a, p) ->
+    c_status (h_conn (jB n)) = CONNECTED ->
+    c_key (h_conn (jA n)) = Some (kdf (dh a (pub b)) (sp_salt p)) /\
+    c_key (h_conn (jB n)) = c_key (h_conn (jA n)) /\
+    c_token (h_conn (jA n)) = sp_token p /\ c_token (h_conn (jB n)) = sp_token p /\
+    exists d k0 sB, In (d, k0, (sB, CHALLENGE_RESP, MChallenge (sp_token p))) (gB n) /\
+      connects (sB, CHALLENGE_RESP, MChallenge (sp_token p)) = true /\
+      c_key (h_conn sB) = c_key (h_conn (jB n)) /\ c_token (h_conn sB) = sp_token p /\
+      exists k, k0 = Some k /\ authentic k d.
+  Proof.
+    intros VS DC e a b root rand akeys other vs NR DY n rp p sg Had Hl St.
+    destruct (run_agreement_proof VS DC e a b root rand akeys other vs NR DY rp p sg Had Hl) as (KA & KB & TA & TB).
+    fold n in KA, KB, TA, TB. repeat (split; [assumption|]).
+    destruct (run_connect_proof e a (Some (pub root)) b root rand vs) as [C1 C2]. fold n in C1, C2.
+    destruct (C2 St) as (d & k0 & sB & m & Hin & Hc & K & T).
+    destruct (C1 _ _ _ _ _ Hin Hc) as (_ & -> & _ & Au & _).
+    exists d, k0, sB. rewrite T, TB in *. auto.
+  Qed.
 End Run.
